@@ -225,7 +225,11 @@ def generate(prop, rng, tier):
             cols = rng.choice([["p"], ["p", "q"], ["foo", "bar", "baz"]])
             spec["columns"] = cols
             spec["values"] = [[cnt.next() for _ in cols] for _ in rows]
-        spec["subset_seed"] = rng.randint(0, 10 ** 6) if rng.random() < 0.3 else None
+        if rng.random() < 0.25 and len(rows) > 1:
+            # a subset of the rows: for equal level names the other operand then has keys this one lacks (NaN fill)
+            keep = sorted(rng.sample(range(len(rows)), rng.randint(1, len(rows) - 1)))
+            spec["index"] = [rows[q] for q in keep]
+            spec["values"] = [spec["values"][q] for q in keep]
         pool.append(spec)
     steps = []
     for _ in range(rng.randint(5, 14)):
@@ -248,6 +252,8 @@ def generate(prop, rng, tier):
                           "k_2": [rng.choice([float("inf"), 9.0, 13.0]) for _ in range(n_el)],
                           "scenarios": rng.sample(["s1", "s2", "s3", "s4"], n_sc),
                           "loads": [rng.choice([80.0, 120.0, 250.0, 300.0, 500.0]) for _ in range(n_sc)],
+                          "calc": rng.choice(["cycles", "cycles", "load"]),
+                          "cycles": [rng.choice([1e4, 1e5, 5e5, 1e6, 2e6, 1e7, 1e8]) for _ in range(n_sc)],
                           "load_level_name": rng.choice(["scenario", "scenario", None]),
                           "element_level_name": rng.choice(["element_id", "element_id", "scenario_x"])})
     return {"world": NAME, "pool": pool, "steps": steps, "uuid_seed": rng.randint(1, 10 ** 6)}
@@ -345,14 +351,6 @@ def execute(prop, trace):
     out.count("seam:uuid4_calls", seam.n)
     out.digest = log.digest()
     return out
-
-
-def _apply_subset(spec):
-    import random as _r
-    s = spec.get("subset_seed")
-    if s is None or "alias" in spec:
-        return spec
-    return spec
 
 
 def _run(trace, out, log):
@@ -572,10 +570,12 @@ def _wc_step(st, k, out, log):
     wc = pd.DataFrame({"k_1": st["k_1"], "ND": st["ND"], "SD": st["SD"], "k_2": [float(x) for x in st["k_2"]],
                        "TN": 1.0, "TS": 1.0, "failure_probability": 0.5},
                       index=pd.Index(el, name=ename))
-    load = pd.Series([float(x) for x in st["loads"]], index=pd.Index(list(st["scenarios"]), name=st["load_level_name"]), name="load")
+    calc = st.get("calc", "cycles")
+    given = st["loads"] if calc == "cycles" else st["cycles"]
+    load = pd.Series([float(x) for x in given], index=pd.Index(list(st["scenarios"]), name=st["load_level_name"]), name="load")
     wc_snap, load_snap = snapshot(wc), snapshot(load)
     try:
-        cyc = wc.woehler.cycles(load)
+        cyc = wc.woehler.cycles(load) if calc == "cycles" else wc.woehler.load(load)
     except Exception as e:   # noqa
         out.violate("exception", "derived:cycles", {"step": k, "type": type(e).__name__, "msg": str(e)[:200]})
         return False
@@ -595,9 +595,15 @@ def _wc_step(st, k, out, log):
         e, s = r[pe], r[ps]
         seen.add((e, s))
         ie, is_ = el.index(e), list(st["scenarios"]).index(s)
-        L, SD, ND = float(st["loads"][is_]), float(st["SD"][ie]), float(st["ND"][ie])
-        kk = float(st["k_1"][ie]) if not L < SD else float(st["k_2"][ie])
-        want = ND * (L / SD) ** (-kk) if math.isfinite(kk) else float("inf")
+        SD, ND = float(st["SD"][ie]), float(st["ND"][ie])
+        if calc == "cycles":
+            L = float(st["loads"][is_])
+            kk = float(st["k_1"][ie]) if not L < SD else float(st["k_2"][ie])
+            want = ND * (L / SD) ** (-kk) if math.isfinite(kk) else float("inf")
+        else:
+            N = float(st["cycles"][is_])
+            kk = float(st["k_1"][ie]) if not N > ND else float(st["k_2"][ie])
+            want = SD * (N / ND) ** (-1.0 / kk) if math.isfinite(kk) else SD
         got = float(v[0]) if v[0] != "nan" else float("nan")
         ok = (math.isinf(want) and got == want) or (math.isfinite(want) and abs(got - want) <= 1e-12 * abs(want))
         if not ok:
